@@ -356,7 +356,11 @@ class Daemon(object):
         except Exception as x:
             log.debug("handshake failed, reason:", exc_info=True)
             serializer = serializers.serializers_by_id[serializer_id]
-            data = serializer.dumps(str(x))
+            try:
+                data = serializer.dumps(str(x))
+            except Exception:
+                # the reason itself cannot be encoded (e.g. it quotes a lone surrogate): send it escaped
+                data = serializer.dumps(str(x).encode("ascii", "backslashreplace").decode("ascii"))
             msgtype = protocol.MSG_CONNECTFAIL
         # We need a minimal amount of response data or the socket will remain blocked
         # on some systems... (messages smaller than 40 bytes)
